@@ -1318,6 +1318,59 @@ fn corr_hess_case(out: &mut Out, a: &Mat, group: &str) {
         Ok((xa, perm, xv)) => {
             out.corr(&format!("elmhes{}", group), format!("corr_elmhes {} {} {}", coq_rows_f64(a), coq_rows_f64(&xa), coq_list_n(&perm)), input.clone());
             out.corr(&format!("eltran{}", group), format!("corr_eltran {} {} {}", coq_rows_f64(&xa), coq_list_n(&perm), coq_rows_f64(&xv)), json!({"entry": "eltran", "a": xa, "perm": perm}));
+            if n <= 6 && all_finite(&xa) && all_finite(&xv) {
+                corr_hqr2_full_case(out, &xa, &xv, &format!("hqr2{}", if group.is_empty() { "@elmhes-output" } else { group }));
+            }
+        }
+    }
+}
+
+
+/// hqr2 as a whole through the wrapper, bit-exact against the model (working array, V, d, e); a panic
+/// of the implementation must be a `None` of the model
+fn corr_hqr2_full_case(out: &mut Out, a: &Mat, v: &Mat, group: &str) {
+    let n = a.len();
+    if n == 0 {
+        return;
+    }
+    let (a0, v0) = (a.clone(), v.clone());
+    let res = with_watchdog(20, move || {
+        guard(move || {
+            let mut m: DenseMatrix<f64> = to_dense(&a0);
+            let mut vv: DenseMatrix<f64> = to_dense(&v0);
+            let mut d = vec![0.0f64; n];
+            let mut e = vec![0.0f64; n];
+            verif_hqr2(&mut m, &mut vv, &mut d, &mut e);
+            (from_dense(&m), from_dense(&vv), d, e)
+        })
+    });
+    let input = json!({"entry": "hqr2", "a": a, "v": v});
+    match res {
+        Some(Ok(Ok((xa, xv, xd, xe)))) => out.corr(
+            group,
+            format!("corr_hqr2 {} {} {} {} {} {}", coq_rows_f64(a), coq_rows_f64(v), coq_rows_f64(&xa), coq_rows_f64(&xv), coq_list_f64(&xd), coq_list_f64(&xe)),
+            input,
+        ),
+        Some(Ok(Err(_))) => out.corr(&format!("{}:panic", group), format!("corr_hqr2_panics {} {}", coq_rows_f64(a), coq_rows_f64(v)), input),
+        _ => out.count("corr:hqr2-skipped-watchdog"),
+    }
+}
+
+
+/// evd(false) end to end against the composed model (bit-exact on V, d, e; a panic must be a `None`)
+fn corr_evd_gen_case(out: &mut Out, a: &Mat) {
+    if a.is_empty() {
+        return;
+    }
+    let input = json!({"entry": "evd_gen_model", "a": a});
+    match run_evd(a, false, false) {
+        Ok(r) => out.corr("evd_gen_model", format!("corr_evd_gen {} {} {} {}", coq_rows_f64(a), coq_rows_f64(&r.V), coq_list_f64(&r.d), coq_list_f64(&r.e)), input),
+        Err(msg) => {
+            if msg.contains("Too many iterations in hqr") {
+                out.corr("evd_gen_model:panic", format!("corr_evd_gen_panics {}", coq_rows_f64(a)), input)
+            } else {
+                out.count("corr:evd_gen_model-skipped-other-error")
+            }
         }
     }
 }
@@ -1465,6 +1518,8 @@ fn replay(path: &str) -> i32 {
         "tred2" => corr_tred2_case(&mut out, &rows_from_json(&inp["a"]), "replay"),
         "tql2" => corr_tql2_case(&mut out, &rows_from_json(&inp["a"])),
         "elmhes" => corr_hess_case(&mut out, &rows_from_json(&inp["a"]), "@replay"),
+        "evd_gen_model" => corr_evd_gen_case(&mut out, &rows_from_json(&inp["a"])),
+        "hqr2" => corr_hqr2_full_case(&mut out, &rows_from_json(&inp["a"]), &rows_from_json(&inp["v"]), "hqr2@replay"),
         _ => {
             eprintln!("unknown replay entry");
             return 2;
@@ -1510,6 +1565,18 @@ fn main() {
     oracle_gen(&mut out, &mut cal, &jordan4, false, "corpus", &Info { lambda: None, mult: 4, family: "defective".into() });
     let comp4 = vec![vec![0.0, 0.0, 0.0, -2.0], vec![1.0, 0.0, 0.0, -2.0], vec![0.0, 1.0, 0.0, 1.0], vec![0.0, 0.0, 1.0, 2.0]];
     oracle_gen(&mut out, &mut cal, &comp4, false, "corpus", &Info { lambda: None, mult: 0, family: "companion".into() });
+    // hqr2 on the states these two reach: the model must panic (None) exactly when the code does
+    for m0 in [&jordan4, &comp4] {
+        corr_hess_case(&mut out, m0, "");
+        let m1 = (*m0).clone();
+        if let Ok(b) = guard(move || {
+            let mut m: DenseMatrix<f64> = to_dense(&m1);
+            let _ = verif_balance(&mut m);
+            from_dense(&m)
+        }) {
+            corr_hess_case(&mut out, &b, "");
+        }
+    }
     let ones28: Mat = vec![vec![1.0; 28]; 28];
     oracle_sym(&mut out, &mut cal, &ones28, true, "corpus", &Info::default());
     oracle_sym(&mut out, &mut cal, &ones28, false, "corpus", &Info::default());
@@ -1590,6 +1657,62 @@ fn main() {
         let fam = ["random", "lattice", "sparse", "triangular", "companion", "badly-balanced"][i % 6];
         let (m, _) = gen_gen(&mut rng, fam, n, false);
         corr_hess_case(&mut out, &m, "");
+    }
+    // (the cases below draw from their own generator so that the inputs of the search stay what they were)
+    let mut rng2 = Rng::new(a.seed ^ 0x6871_7232_5f63_3032);
+    // ---- correspondence: hqr2 as a whole (bit-exact) on upper Hessenberg inputs with V = I ----
+    for i in 0..24 * k {
+        let n = rng2.usize_in(1, 6);
+        let fam = ["random", "lattice", "rotation-blocks", "triangular", "companion", "hessenberg", "real-separated", "normal"][i % 8];
+        let (mut m, _) = gen_gen(&mut rng2, fam, n, false);
+        for r in 0..n {
+            for c in 0..n {
+                if r > c + 1 {
+                    m[r][c] = 0.0;
+                }
+            }
+        }
+        let eye: Mat = (0..n).map(|r| (0..n).map(|c| if r == c { 1.0 } else { 0.0 }).collect()).collect();
+        corr_hqr2_full_case(&mut out, &m, &eye, "hqr2");
+    }
+    // ---- correspondence: evd(false) end to end against the composed model ----
+    corr_evd_gen_case(&mut out, &jordan4);
+    corr_evd_gen_case(&mut out, &comp4);
+    for i in 0..28 * k {
+        let n = rng2.usize_in(1, 6);
+        let fam = GEN_FAMILIES[i % GEN_FAMILIES.len()];
+        let (m, _) = gen_gen(&mut rng2, fam, n, false);
+        corr_evd_gen_case(&mut out, &m);
+    }
+    // ---- correspondence: hqr2 on inputs that drive the overflow-guard rescaling of the back-substitution
+    //      (close eigenvalues, huge couplings: components beyond 1/sqrt(eps)), real and complex blocks ----
+    for i in 0..6 * k {
+        let n = rng2.usize_in(3, 6);
+        let big = [1e6, 1e9, 1e12][i % 3];
+        let eye: Mat = (0..n).map(|r| (0..n).map(|c| if r == c { 1.0 } else { 0.0 }).collect()).collect();
+        let mut m = zeros(n);
+        for r in 0..n {
+            m[r][r] = 1.0 + 1e-3 * (r as f64) + 1e-4 * rng2.uniform(0.0, 1.0);
+            for c in r + 1..n {
+                m[r][c] = big * rng2.uniform(0.5, 1.0);
+            }
+        }
+        corr_hqr2_full_case(&mut out, &m, &eye, "hqr2:overflow-guard");
+        // the same with 2x2 rotation-like diagonal blocks (complex pairs)
+        let nb = n - n % 2;
+        let mut mc = zeros(n);
+        for r in 0..n {
+            for c in r..n {
+                mc[r][c] = big * rng2.uniform(0.5, 1.0);
+            }
+            mc[r][r] = 1.0 + 1e-3 * ((r / 2) as f64);
+        }
+        for b in (0..nb).step_by(2) {
+            mc[b][b + 1] = 1.0;
+            mc[b + 1][b] = -1.0 - 1e-4 * rng2.uniform(0.0, 1.0);
+            mc[b + 1][b + 1] = mc[b][b];
+        }
+        corr_hqr2_full_case(&mut out, &mc, &eye, "hqr2:overflow-guard");
     }
     // ---- correspondence: stages of evd(false) on the implementation's own state ----
     for i in 0..30 * k {
